@@ -146,7 +146,10 @@ pub fn gen_scn(seed: u64) -> Scn {
                 }
             }
             r.shuffle(&mut marker_order);
-            tests.push(TestFn { name, outcome: outcome.to_string(), skip, xfail, slow, fixture_param: r.chance(1, 10), is_async: false, marker_order });
+            let fixture_param = r.chance(1, 10);
+            // async tests are run through #[tokio::test]
+            let is_async = !fixture_param && r.chance(1, 10);
+            tests.push(TestFn { name, outcome: outcome.to_string(), skip, xfail, slow, fixture_param, is_async, marker_order });
         }
         files.push(TestFile { path, tests, discoverable: true, parses: !r.chance(1, 25) });
     }
@@ -706,7 +709,7 @@ fn trunc(s: &str, n: usize) -> String {
 fn budget(t: Tier) -> u64 {
     match t {
         Tier::Quick => simcore::scaled(260),
-        Tier::Thorough => simcore::scaled(2000),
+        Tier::Thorough => simcore::scaled(1200),
     }
 }
 
